@@ -83,7 +83,7 @@ func (mt *MerkleTree) Open(i int) (MerkleProof, error) {
 		posBound  = 1 << mt.Depth()
 	)
 
-	if i >= posBound {
+	if i < 0 || i >= posBound {
 		return nil, errors.New("error: index out of range")
 	}
 
@@ -111,6 +111,11 @@ func (proof MerkleProof) Verify(i int, leaf, root Hash) error {
 		parentPos = i
 		curNode   = leaf
 	)
+
+	// the position must be a leaf index of a tree of depth len(proof)
+	if i < 0 || i>>len(proof) != 0 {
+		return errors.New("error: index out of range")
+	}
 
 	for _, h := range proof {
 
